@@ -739,7 +739,7 @@ class Gen:
             for ccls, content in CONTENT_CLASSES:
                 self.add("name", "wa", name, hexs(content), len(content), ["syntax", "format"], "name class %s, content class %s" % (ncls, ccls))
 
-    def stream_extreme(self, sizes):
+    def stream_extreme(self, sizes, quick):
         """the recursion-depth probes asked for explicitly: 10^5 (thorough: 5*10^6) nested brackets / unary operators /
         blocks, through the scanners and parsers only"""
         fams = {"wa": ["paren", "paren_open", "neg", "not", "star", "index_open", "call", "block", "brace_open", "slicetype"],
@@ -748,6 +748,8 @@ class Gen:
                 "asm": ["paren", "paren_open", "minus"]}
         parse_eps = {"wa": ["syntax", "parsewa"], "wz": ["syntax", "parsewz"], "wat": ["syntax", "wat"],
                      "asm": ["syntax", "nasm_la", "nasm_rv", "nasm_x64", "nasm_arm"]}
+        if quick:
+            fams = {"wa": ["paren_open", "neg", "brace_open"], "wz": ["paren_open"], "wat": ["paren_open", "block_open"], "asm": ["paren_open"]}
         for lang, fs in fams.items():
             for fam in fs:
                 for D in sizes:
@@ -1133,8 +1135,9 @@ def run(ctx):
         if c.get("tier") == "thorough" and quick:
             continue
         data = corpus_content(c)
-        gen.add("corpus", c.get("lang", "wa"), bytes.fromhex(c.get("name_hex", "")) if c.get("name_hex", "-") != "-" else b"",
-                hexs(data), len(data), c["eps"], "corpus/%s (%s)" % (c["file"], c.get("key", "")), force=True)
+        for _ in range(int(c.get("repeat", 1))):      # intermittent failures (map iteration order) are replayed several times
+            gen.add("corpus", c.get("lang", "wa"), bytes.fromhex(c.get("name_hex", "")) if c.get("name_hex", "-") != "-" else b"",
+                    hexs(data), len(data), c["eps"], "corpus/%s (%s)" % (c["file"], c.get("key", "")), force=True)
     # the Lean witnesses (dispatch_witness_pinned, dispatch_witness_pinned_empty) replayed on the real code
     gen.add("witness", "wa", b"x.txt", hexs(b"1"), 1, ["syntax", "format"], "witness FormatCode(\"x.txt\", \"1\")")
     gen.add("witness", "wa", b"x", "-", 0, ["syntax", "format"], "witness FormatCode(\"x\", \"\")")
@@ -1145,16 +1148,16 @@ def run(ctx):
         gen.stream_token_mut(2200, 0.08)
         gen.stream_byte_mut(1400, 0.06)
         gen.stream_trunc(3, 0.03)
-        gen.stream_deep([500, 2000], load_max=500)
-        gen.stream_extreme([100000])
+        gen.stream_deep([500, 8000], load_max=500)
+        gen.stream_extreme([100000], quick=True)
     else:
         gen.stream_seeds(load_every=1)
         gen.stream_names()
         gen.stream_token_mut(40000, 0.05)
         gen.stream_byte_mut(25000, 0.05)
         gen.stream_trunc(None, 0.004)
-        gen.stream_deep([500, 2000, 10000, 100000], load_max=2000)
-        gen.stream_extreme([100000, 5000000])
+        gen.stream_deep([500, 8000, 100000], load_max=8000)
+        gen.stream_extreme([100000, 5000000], quick=False)
     ids = [i for i in gen.order if i not in set(probe_ids)]
     t1 = time.time()
     recs += explore(ctx, h, gen, ids, "x")
@@ -1217,10 +1220,15 @@ def run(ctx):
         ep = r[1]
         budget = 25 if r[2] == "timeout" else 120
         # confirmation + minimisation use the same predicate: same key when run alone
+        syn = r[5].split()[0] if r[5].split() and r[5].split()[0] in ("synok", "synerr") else None
+
         def same_key(d):
             rr = run_single(h, ["m", ep, hexs(inp["name"]), hexs(d)], ep, ctx.tmp, "min_%s_%s" % (r[0], ep))
+            if syn and (rr[5].split() or [""])[0] != syn:
+                return False           # keep "the input parses without error" while shrinking
             return rr[2] in BAD and record_key(rr, inp["size"]) == key
-        if not same_key(data):
+        # a panic may be intermittent (iteration order of a Go map): several attempts before giving up
+        if not any(same_key(data) for _ in range(1 if r[2] == "timeout" else 6)):
             return key, None, info
         if len(data) <= 400000:
             data = ddmin(same_key, data, budget)
@@ -1237,7 +1245,7 @@ def run(ctx):
                         info["unconfirmed"] = True
                         continue
                     small = content_of(inp["spec"])
-                    key = key + ":batch-dependent"
+                    key = key + ":not-reproduced-alone"
                 info["minimised_size"] = len(small)
                 what = "%s on entry point(s) %s: %s; input (%d bytes, minimised from %s; file name %r): %s" % (
                     key.split(":")[0], ",".join(info["eps"]), info["example"]["detail"], len(small), info["example"]["desc"],
@@ -1245,21 +1253,57 @@ def run(ctx):
                 ctx.violation(key, what, {"ep": r_ep, "name_hex": hexs(inp["name"]), "content_hex": hexs(small) if len(small) <= 200000 else None,
                                           "size": len(small), "desc": info["example"]["desc"], "detail": info["example"]["detail"]})
 
-    # ---- 5. scaling of the size families (evidence; the time limit is what decides)
-    scaling = []
+    # ---- 5. super-linear growth on the size families: CPU time at sizes 500 and 8000 (x16); a call that takes
+    #         >= 0.2 s at the larger size and grew by >= 16^1.5 = 64x is reported (a linear algorithm grows 16x,
+    #         a quadratic one 256x), keyed by the earliest pipeline stage that shows it for the family
+    import math
+    S1, S2, MIN_T2, MIN_EXP = 500, 8000, 200000, 1.5
     fam = {}
     for r in recs:
         inp = gen.inputs[r[0]]
-        if inp["stream"] in ("deep", "extreme") and r[2] in ("ok", "err"):
+        if inp["stream"] == "deep" and r[2] in ("ok", "err"):
             m = re.match(r"family (\S+) size (\d+)", inp["desc"])
-            fam.setdefault((m.group(1), r[1]), {})[int(m.group(2))] = r[3]
-    import math
+            fam.setdefault((m.group(1), r[1]), {})[int(m.group(2))] = (r[3], r[0])
+    scaling = []
     for (f, ep), ts in fam.items():
-        ks = sorted(ts)
-        if len(ks) >= 2 and ts[ks[0]] >= 5000 and ts[ks[-1]] > ts[ks[0]]:
-            e = math.log(ts[ks[-1]] / ts[ks[0]]) / math.log(ks[-1] / ks[0])
-            scaling.append({"family": f, "ep": ep, "sizes": ks, "cpu_us": [ts[k] for k in ks], "exponent": round(e, 2)})
-    scaling.sort(key=lambda s: -s["exponent"])
+        if S1 in ts and S2 in ts:
+            t1, t2 = max(ts[S1][0], 1000), ts[S2][0]
+            e = math.log(max(t2, 1) / t1) / math.log(S2 / S1)
+            scaling.append({"family": f, "ep": ep, "cpu_us": [ts[S1][0], t2], "exponent": round(e, 2), "ids": [ts[S1][1], ts[S2][1]]})
+    scaling.sort(key=lambda x: -x["exponent"])
+    sup = [x for x in scaling if x["cpu_us"][1] >= MIN_T2 and x["exponent"] >= MIN_EXP]
+    supfam = {(x["family"], x["ep"]) for x in sup}
+    own_parse = {"checkwa": "parsewa", "checkwz": "parsewz", "loadwa": "parsewa", "loadwz": "parsewz"}
+    bystage = {}
+    for x in sup:
+        f, ep = x["family"], x["ep"]
+        if (f, "syntax") in supfam and ep != "syntax":
+            continue
+        if ep in own_parse and (f, own_parse[ep]) in supfam:
+            continue
+        if ep == "format" and ((f, "parsewa") in supfam or (f, "parsewz") in supfam):
+            continue
+        bystage.setdefault("superlinear:" + stage_of(ep, ""), []).append(x)
+    for key, xs in sorted(bystage.items()):
+        fams_txt = ", ".join("%s (%s: %.0f ms -> %.0f ms, exponent %.2f)" % (x["family"], x["ep"], x["cpu_us"][0] / 1e3, x["cpu_us"][1] / 1e3, x["exponent"]) for x in xs[:8])
+        findings.append({"key": key, "count": len(xs), "eps": sorted({x["ep"] for x in xs}), "streams": ["deep"],
+                         "example": {"desc": fams_txt, "size": S2, "detail": "CPU time grows super-linearly between sizes %d and %d" % (S1, S2)}})
+        if not is_known(key):
+            # confirm the steepest family alone before reporting
+            x = xs[0]
+            tt = []
+            for i in x["ids"]:
+                inp = gen.inputs[i]
+                rr = run_single(h, [i, x["ep"], hexs(inp["name"]), inp["spec"]], x["ep"], ctx.tmp, "sup_%s" % i)
+                tt.append(rr[3] if rr[2] in ("ok", "err") else None)
+            if None in tt or tt[1] < MIN_T2 or tt[1] < (S2 / S1) ** MIN_EXP * max(tt[0], 1000):
+                ctx.notes.append("unconfirmed super-linear growth (not reproduced when run alone, not reported): %s %s" % (key, fams_txt))
+                continue
+        ctx.violation(key, "CPU time of %s grows super-linearly with the input size (sizes %d -> %d, x16; linear would be 16x): %s" % (
+            key.split(":")[1], S1, S2, fams_txt), {"families": [{k: v for k, v in x.items() if k != "ids"} for x in xs[:8]],
+                                                  "generator": "checks/c08.py deep_family(lang, family, size)"})
+    for x in scaling:
+        x.pop("ids", None)
 
     # ---- evidence
     nontrivial = set()
@@ -1299,13 +1343,13 @@ def run(ctx):
         "dispatch": dstats,
         "dispatch_tables": cfg,
         "scaling_top": scaling[:15],
-        "time_limit": "CPU time of the child process during the call: 2 s + 20 ms/KiB (LoadProgramFile: 8 s + 60 ms/KiB); wall-clock fallback 25x; memory: RLIMIT_AS %d GiB, GOMEMLIMIT %s" % (MEM_LIMIT >> 30, GOMEMLIMIT),
+        "time_limit": "CPU time of the child process during the call: 2 s + 100 ms/KiB (LoadProgramFile: 8 s + 200 ms/KiB); wall-clock fallback 25x; memory: RLIMIT_AS %d GiB, GOMEMLIMIT %s" % (MEM_LIMIT >> 30, GOMEMLIMIT),
         "timing": timing,
         "seeds": {k: len(v) for k, v in seeds.by_lang.items()},
     }
     return ctx.finish("exploration", cov,
                       assumptions=["the parsers, scanners and the type checker are NOT modelled; absence of crashes/hangs there is explored on generated inputs, not proved",
-                                   "'time bounded by the input size' is read as: CPU time <= 2 s + 20 ms per KiB of input (8 s + 60 ms/KiB for LoadProgramFile)",
+                                   "'time bounded by the input size' is read as: CPU time <= 2 s + 100 ms per KiB of input (8 s + 200 ms/KiB for LoadProgramFile) AND, on the size families, growth exponent < 1.5 between sizes 500 and 8000 once a call takes >= 0.2 s",
                                    "file names are byte strings; strings.ToLower is modelled as ASCII lower-casing (exact for the ASCII table keys, which contain no 'k'/'i' that a non-ASCII rune could lower to); path separator '/'",
                                    "the type checker is also run on the partial AST of files with syntax errors (entry points checkwa/checkwz), as internal/lsp/loaderx does"],
                       trusted_base=["extract/c08_extract.go (go/ast reading of DetectLang's tables and format.File's switch) -> Gen/C08.lean",
